@@ -21,6 +21,8 @@ func TestCheck(t *testing.T) {
 			"resize-aware offline admission check on a logical clock, single-goroutine isolation probers on (same cluster, other schema) and (other cluster, same schema name), quiescence probe; " +
 			"(3) porcupine on <=60-op histories against the non-deterministic semaphore model; " +
 			"(4) end-to-end batches through the real handler chain: every way a proxied request can end x limits 1-3 x 0..M-1 streams held meanwhile, then hold-M/next-is-429/release/hold-M-again over HTTP, plus reconfiguration scenarios with streams in flight. " +
+			"(5) isolation between schemas of one cluster whose names nearly collide (case, trailing space, unicode case; all accepted by validation): exact sequential probes with the other schema exhausted / resized / deleted, a single-goroutine prober in every concurrent run, and an end-to-end scenario (sibling exhausted, then deleted with streams in flight); " +
+			"(6) end-to-end ending 'endpoint removed from the server list while streams are proxied to it' with other streams of the same schema held on another endpoint. " +
 			"Limiters are obtained exactly as the dispatcher does (NewUpstreamLimiter+Sync+GetOrDefault per request, or ClusterInfo.MatchAttributes().FlowControl()). " +
 			"Non-trivial = an acquire was attempted while the counted in-flight requests were at the limit; distinct = hash of the history / run parameters.")
 		r.Assume("a TryAcquire that overlaps a reconfiguration may be decided against either configuration; only calls that started after Sync returned are held to the new limit")
@@ -29,6 +31,7 @@ func TestCheck(t *testing.T) {
 
 		seed := uint64(r.Seed)
 		sequentialHistories(r)
+		nearCollisionIsolation(r)
 
 		vkit.Sched.Enable(seed, 0.04, 0.02, 0.002)
 		concurrentRuns(r)
@@ -47,10 +50,13 @@ func TestCheck(t *testing.T) {
 		r.Require(r.Counter("conc_attempts_at_limit_after_resize_down_returned") >= 50, "too few attempts at the limit after a resize-down had returned")
 		r.Require(r.Counter("conc_epoch_begins_by_toggle_or_readd") >= 50, "too few epochs begun by a type change / re-add")
 		r.Require(r.Counter("isolation_probe_rounds_while_hot_exhausted") >= 100, "too few isolation probes while the other schema was exhausted")
+		r.Require(r.Counter("near_collision_cases") >= 30 && r.Counter("near_collision_exact_probes") >= 250, "too few near-collision isolation probes")
 		r.Require(r.Counter("lin_histories") >= 100 && r.Counter("lin_admissions") >= 500, "too few linearizability histories")
 		if os.Getenv("VERIF_C05_SKIP_E2E") == "" {
 			r.Require(r.Counter("e2e_batches") >= 20, "too few end-to-end batches")
 			r.Require(r.Counter("e2e_quiescence_429_observed") >= 20, "too few end-to-end quiescence probes reached the 429")
+			r.Require(r.Counter("e2e_streams_ended_by_endpoint_removal") >= 3, "too few streams were torn down by an endpoint removal")
+			r.Require(r.Counter("e2e_near_collision_scenarios") >= 3, "too few end-to-end near-collision scenarios completed")
 		}
 	})
 }
